@@ -118,7 +118,10 @@ theorem hf_valX (fb : XR → XR → XR → XR) {h : NHist XR} {L : List RB} {N :
         fb (.fin l) (.fin u) (.fin v2) = .fin f2 ∧ 0 ≤ f1 ∧ f1 ≤ f2 ∧ f2 ≤ 1)
     (lo up : XR) (hlo : lo ≠ .nan) (hup : up ≠ .nan) (hlu : XR.le lo up = true) :
     histogramFraction fb lo up h = .fin ((rankX fb h up L - rankX fb h lo L) / N) := by
-  have hs' : XR.isNaN h.sum = false := XR.isNaN_of_ne R.sum
+  have hcount : (if XR.isNaN h.sum = true then sumCounts (XR.fin 0) h.fwd else XR.fin N) = XR.fin N := by
+    split
+    · rw [R.fwd, sumCounts_map, R.tot]; congr 1; grind
+    · rfl
   have hN0 : N ≠ 0 := by have := R.pos; grind
   have okl : ∀ b ∈ L, b.l ≤ b.u := fun b hb => (R.ok b hb).1
   have FB : ∀ v, ∀ b ∈ L, b.l < v → v < b.u → ∃ f, fb (.fin b.l) (.fin b.u) (.fin v) = .fin f := by
@@ -128,7 +131,7 @@ theorem hf_valX (fb : XR → XR → XR → XR) {h : NHist XR} {L : List RB} {N :
   have ht : (0 : Rat) + total L = N := by rw [R.tot]; grind
   unfold histogramFraction
   simp only [fops_beq, fops_zero, R.count, XR.beq_fin, hN0, decide_false, fops_isNaN, XR.isNaN_of_ne hlo,
-    XR.isNaN_of_ne hup, Bool.or_false, Bool.false_eq_true, if_false, fops_le, hs']
+    XR.isNaN_of_ne hup, Bool.or_false, Bool.false_eq_true, if_false, fops_le, hcount]
   by_cases heq : XR.le up lo = true
   · have a := (rankX_mono fb h FBm L R.ok lo up hlo hup hlu).2.1
     have b := (rankX_mono fb h FBm L R.ok up lo hup hlo heq).2.1
